@@ -230,6 +230,29 @@ pub fn byte_faults(bytes: &[u8], rng: &mut Rng, budget_random: usize, thin: usiz
             from = e;
         }
     }
+    // 3b. consistent double fault: the stream list cut to its first k names together with
+    // NUM_STREAMS:k (k = 0 .. n-1), so that the count check passes
+    {
+        let lines = header_lines(bytes);
+        let find_line = |key: &[u8]| lines.iter().find(|(a, b)| bytes[*a..*b].starts_with(key)).cloned();
+        if let (Some((na, nb)), Some((ta, tb))) = (find_line(b"NUM_STREAMS:"), find_line(b"STREAM_TYPE:")) {
+            let types = String::from_utf8_lossy(&bytes[ta + 12..tb]).trim_end().to_string();
+            let names: Vec<&str> = types.split(',').filter(|x| !x.is_empty()).collect();
+            for k in 0..names.len() {
+                let num = format!("NUM_STREAMS:{}\n", k);
+                let ty = format!("STREAM_TYPE:{}\n", names[..k].join(","));
+                // splice the later line first so that the earlier offsets stay valid
+                let v = if na < ta {
+                    let v = splice(bytes, ta, tb, ty.as_bytes());
+                    splice(&v, na, nb, num.as_bytes())
+                } else {
+                    let v = splice(bytes, na, nb, num.as_bytes());
+                    splice(&v, ta, tb, ty.as_bytes())
+                };
+                out.push(Fault { class: "streams-cut", section: "GLOBAL".into(), descr: format!("NUM_STREAMS and STREAM_TYPE cut to the first {} stream(s)", k), bytes: v });
+            }
+        }
+    }
     // 7c. the first / last byte of every data range of the position table -> a non-ASCII byte
     // or CR (text parsers that peek one character at a section edge)
     if let Some(p) = find(bytes, b"[POSITION]\n") {
